@@ -107,6 +107,10 @@ pub struct SecondaryStorage {
 
     /// Indexes of the current storage engine
     indexes: Mutex<InMemoryIndexes>,
+
+    /// Serializes CREATE TABLE / DROP TABLE: logging a DDL record and applying it to the catalog
+    /// must be one step, because table ids are re-derived from the order of the log on boot.
+    ddl_lock: Mutex<()>,
 }
 
 impl SecondaryStorage {
